@@ -37,7 +37,7 @@ def gen(chk, mpmath, rng):
                 yield ex.relabs_close(got, exact, 10, p), {"key": "finite/nprod", "a": a, "range": [lo, hi], "p": p, "what": "finite nprod differs from the exact rational product"}
             elif c < 0.65:
                 # infinite series with rational sums
-                which = rng.choice(["geom", "arithgeom", "telescope", "telescope2", "altgeom"])
+                which = rng.choice(["geom", "arithgeom", "telescope", "telescope2", "altgeom", "geom-left", "telescope-left", "geom-both"])
                 r = Fr(rng.randint(1, 7), rng.choice([8, 9, 10, 16])) * rng.choice([1, -1])
                 R = mp.mpf(r.numerator) / r.denominator
                 meth = rng.choice(["r+s", "r+s+e", "l", "s", "r", "d"]) if which != "altgeom" else rng.choice(["r+s", "a", "l"])
@@ -49,12 +49,27 @@ def gen(chk, mpmath, rng):
                     got = mp.nsum(lambda k: 1 / (k * (k + 1)), [1, inf], method=meth); exact = ex.Z(1)
                 elif which == "telescope2":
                     got = mp.nsum(lambda k: 1 / (k * (k + 2)), [1, inf], method=meth); exact = ex.Qf(Fr(3, 4))
+                elif which == "geom-left":
+                    # sum_{k <= b} R^-k ... written with a summand that is not even in k: sum_{k=-inf}^{b} (1/r)^k = r^-b / (1 - r)
+                    b = rng.randint(-4, 4); meth = "r+s"
+                    got = mp.nsum(lambda k: (1 / R) ** k, [-inf, b], method=meth); exact = ex.div(ex.powi(ex.Qf(r), -b), ex.sub(1, ex.Qf(r)))
+                elif which == "telescope-left":
+                    # sum_{k=-inf}^{-2} 1/(k (k+1)) = sum_{j>=2} 1/(j (j-1)) = 1
+                    meth = "r+s"
+                    got = mp.nsum(lambda k: 1 / (k * (k + 1)), [-inf, -2], method=meth); exact = ex.Z(1)
+                elif which == "geom-both":
+                    # sum over all integers of r^|k| * (1 + [k > 0]) : asymmetric in k; = 1/(1-r) + 2 r/(1-r)
+                    meth = "r+s"; ra = abs(r); Ra = mp.mpf(ra.numerator) / ra.denominator
+                    got = mp.nsum(lambda k: Ra ** abs(k) * (2 if k > 0 else 1), [-inf, inf], method=meth)
+                    exact = ex.add(ex.div(1, ex.sub(1, ex.Qf(ra))), ex.div(ex.mul(2, ex.Qf(ra)), ex.sub(1, ex.Qf(ra))))
                 else:
                     ra = abs(r)
                     got = mp.nsum(lambda k: (-1) ** k * (mp.mpf(ra.numerator) / ra.denominator) ** k, [0, inf], method=meth); exact = ex.div(1, ex.add(1, ex.Qf(ra)))
                 if not oblcommon.fin(got) or hasattr(got, "_mpc_"):
                     yield None; continue
                 # only the default / recommended strategies are held to full accuracy; others are documented as problem dependent
+                if which == "geom-both":
+                    r = abs(r)
                 if meth in ("r+s", "r+s+e", "a") or which in ("geom", "arithgeom", "altgeom") and meth in ("l", "s", "d"):
                     yield ex.relabs_close(got, exact, 10, p), {"key": "series/%s/%s" % (which, meth), "r": str(r), "p": p, "what": "infinite series differs from its rational closed form"}
             elif c < 0.75:
